@@ -81,3 +81,170 @@ Proof. vm_compute. reflexivity. Qed.
 Example c19_scope_example_double_run :
   ScopeModel.check_case [ESpawn 0 1; EStart 1; EStart 1; EEnd 1 false; EEnd 0 false; EReturn false] = false.
 Proof. vm_compute. reflexivity. Qed.
+
+(* ------------------------------------------------------------------------------------------ *)
+(** ** ReadOptimizedLock (Conc/RoLockModel.v) *)
+Require Verif.Conc.RoLockModel Verif.Conc.RoLock.
+
+(** mutual exclusion, for any number n of threads and every interleaving:
+    (1) at most one thread is in a writer's section (successful CAS .. drop of the MutexWriter):
+        two writers never overlap;
+    (2) while a MutexWriter exists (its owner got past readers_done.wait()) no MutexReader exists;
+    (3) ... in fact no thread then holds a guard on any ReadOk token (old or new);
+    (4) while a writer is in its section the current token is its WriteOngoing token (so nobody
+        can be admitted as a reader) *)
+Theorem c19_rolock_mutex : forall n s, RoLockModel.reachable n s ->
+  (forall x y, RoLock.wcs (RoLockModel.pcof s x) <> None -> RoLock.wcs (RoLockModel.pcof s y) <> None -> x = y) /\
+  (forall x y, RoLock.writing (RoLockModel.pcof s x) = true -> RoLock.reading (RoLockModel.pcof s y) = true -> False) /\
+  (forall x y g, RoLock.writing (RoLockModel.pcof s x) = true ->
+                 RoLockModel.holds (RoLockModel.pcof s y) = Some (g, true) -> False) /\
+  (forall x g', RoLock.wcs (RoLockModel.pcof s x) = Some g' -> RoLockModel.tok s = (g', false)).
+Proof. exact RoLock.rolock_mutex. Qed.
+Print Assumptions c19_rolock_mutex.
+
+(** a reader never observes a writer's partial update: while a thread holds a MutexReader both
+    halves equal the value of the last write whose MutexWriter was dropped, no writer is between its
+    two stores, and whatever the reader has read so far is that value *)
+Theorem c19_rolock_reader_sees_complete_write : forall n s, RoLockModel.reachable n s ->
+  forall x, RoLock.reading (RoLockModel.pcof s x) = true ->
+    RoLockModel.lo s = RoLockModel.lastw s /\ RoLockModel.hi s = RoLockModel.lastw s /\
+    (forall y, RoLock.midwrite (RoLockModel.pcof s y) = false) /\
+    (forall g a, RoLockModel.pcof s x = RoLockModel.RGot g a -> a = RoLockModel.lastw s) /\
+    (forall g a b, RoLockModel.pcof s x = RoLockModel.RObs g a b ->
+                   a = RoLockModel.lastw s /\ b = RoLockModel.lastw s).
+Proof. exact RoLock.rolock_reader_sees_complete_write. Qed.
+Print Assumptions c19_rolock_reader_sees_complete_write.
+
+(** an accepted event log of the real lock is a run of this system *)
+Theorem c19_rolock_replay_sound : forall n es, RoLockModel.check_case (n, es) = true ->
+  exists s, RoLockModel.reachable n s /\ RoLockModel.replay (RoLockModel.init n) es = Some s.
+Proof. exact RoLock.replay_sound. Qed.
+Print Assumptions c19_rolock_replay_sound.
+
+Example c19_rolock_example :
+  RoLockModel.check_case (3, [RoLockModel.ERdIn 0; RoLockModel.ERdIn 1; RoLockModel.ERdOut 0 0 0;
+     RoLockModel.ERdOut 1 0 0; RoLockModel.EWrIn 2; RoLockModel.EWrOut 2 7; RoLockModel.ERdIn 0;
+     RoLockModel.ERdOut 0 7 7]) = true.
+Proof. vm_compute. reflexivity. Qed.
+(** rejected: a writer admitted while a reader is inside; a torn read *)
+Example c19_rolock_example_overlap :
+  RoLockModel.check_case (2, [RoLockModel.ERdIn 0; RoLockModel.EWrIn 1; RoLockModel.EWrOut 1 7;
+     RoLockModel.ERdOut 0 0 0]) = false.
+Proof. vm_compute. reflexivity. Qed.
+Example c19_rolock_example_torn :
+  RoLockModel.check_case (2, [RoLockModel.EWrIn 1; RoLockModel.EWrOut 1 7; RoLockModel.ERdIn 0;
+     RoLockModel.ERdOut 0 7 0]) = false.
+Proof. vm_compute. reflexivity. Qed.
+
+(* ------------------------------------------------------------------------------------------ *)
+(** ** ParallelVecWriter / ConcurrentVec (Conc/WritersModel.v) *)
+Require Verif.Conc.WritersModel Verif.Conc.Writers.
+
+(** ranges handed out by the fetch_add on end_len, for any assignment [items] of contents to calls
+    and any interleaving: inside [len init, end_len), pairwise disjoint, one per call, and they
+    cover [len init, end_len) *)
+Theorem c19_writer_ranges_disjoint : forall items init s, WritersModel.reachable items init s ->
+  (forall c st, In (c, st) (WritersModel.resv s) ->
+     length init <= st /\ st + length (items c) <= WritersModel.end_len s) /\
+  (forall c1 s1 c2 s2, In (c1, s1) (WritersModel.resv s) -> In (c2, s2) (WritersModel.resv s) -> c1 <> c2 ->
+     s1 + length (items c1) <= s2 \/ s2 + length (items c2) <= s1) /\
+  (forall c s1 s2, In (c, s1) (WritersModel.resv s) -> In (c, s2) (WritersModel.resv s) -> s1 = s2) /\
+  (forall idx, length init <= idx < WritersModel.end_len s ->
+     exists c st, In (c, st) (WritersModel.resv s) /\ st <= idx < st + length (items c)).
+Proof. exact Writers.ranges_disjoint. Qed.
+Print Assumptions c19_writer_ranges_disjoint.
+
+(** after all writers finished the vector is the initial contents followed by every call's items,
+    complete, in place, in fetch_add order: everything written is present exactly once and intact *)
+Theorem c19_writer_all_present_intact : forall items init s, WritersModel.reachable items init s ->
+  (forall c st, In (c, st) (WritersModel.resv s) -> WritersModel.pcs s c = WritersModel.CDone st) ->
+  WritersModel.snapshot s = WritersModel.expected_vec items init s /\
+  length (WritersModel.snapshot s) = WritersModel.end_len s.
+Proof. exact Writers.all_present_intact. Qed.
+Print Assumptions c19_writer_all_present_intact.
+
+(** and during the run nobody's finished cells (nor the initial prefix) are disturbed *)
+Theorem c19_writer_partial_intact : forall items init s, WritersModel.reachable items init s ->
+  (forall c start i, WritersModel.pcs s c = WritersModel.CRes start i -> forall j, j < i ->
+      WritersModel.mem s (start + j) = nth j (items c) 0) /\
+  (forall c start, WritersModel.pcs s c = WritersModel.CDone start -> forall j, j < length (items c) ->
+      WritersModel.mem s (start + j) = nth j (items c) 0) /\
+  (forall i, i < length init -> WritersModel.mem s i = nth i init 0).
+Proof. exact Writers.partial_intact. Qed.
+Print Assumptions c19_writer_partial_intact.
+
+(** ConcurrentVec: pushes are serialised and every cell below head holds the value of the push that
+    owns it (written before head moved past it) *)
+Theorem c19_concurrent_vec_prefix_complete : forall val s, WritersModel.cvreach val s ->
+  length (WritersModel.pushed s) = WritersModel.head s /\
+  (forall idx, idx < WritersModel.head s ->
+     exists c, nth_error (WritersModel.pushed s) idx = Some c /\ WritersModel.cell s idx = Some (val c)) /\
+  (forall c i, WritersModel.vpcs s c = WritersModel.VDone i ->
+     i < WritersModel.head s /\ WritersModel.cell s i = Some (val c)) /\
+  (forall c1 c2,
+     (WritersModel.vpcs s c1 = WritersModel.VLocked \/ exists i, WritersModel.vpcs s c1 = WritersModel.VWritten i) ->
+     (WritersModel.vpcs s c2 = WritersModel.VLocked \/ exists i, WritersModel.vpcs s c2 = WritersModel.VWritten i) ->
+     c1 = c2).
+Proof. exact Writers.cv_prefix_complete. Qed.
+Print Assumptions c19_concurrent_vec_prefix_complete.
+
+Example c19_writer_example :
+  WritersModel.check_case ([9; 9], [(2, [1; 2; 3]); (5, []); (5, [4])], [9; 9; 1; 2; 3; 4]) = true.
+Proof. vm_compute. reflexivity. Qed.
+Example c19_writer_example_overlap :
+  WritersModel.check_case ([9; 9], [(2, [1; 2; 3]); (4, [4])], [9; 9; 1; 2; 4]) = false.
+Proof. vm_compute. reflexivity. Qed.
+
+(* ------------------------------------------------------------------------------------------ *)
+(** ** the whole pool: nested scopes and helping workers (Conc/NestedModel.v) *)
+Require Verif.Conc.NestedModel Verif.Conc.Nested.
+
+(** DEADLOCK-FREEDOM for every pool size W >= 1, any number N >= W of threads (threads W..N-1 are
+    callers that are not pool workers and block without helping), any nesting depth: whenever a
+    job is queued or some thread is inside a scope, a step is enabled. *)
+Theorem c19_nested_progress : forall W N, 1 <= W <= N -> forall s, NestedModel.reachable W N s ->
+  (NestedModel.queue s <> [] \/ exists t, nth t (NestedModel.stacks s) [] <> []) ->
+  exists s', NestedModel.step W s s'.
+Proof. exact Nested.nested_progress. Qed.
+Print Assumptions c19_nested_progress.
+
+(** and across the whole pool: once a scope's completion is signalled none of its jobs is queued
+    and none of its bodies (tasks or root callback) is on any thread's stack *)
+Theorem c19_nested_done_safe : forall W N, 1 <= W <= N -> forall s a, NestedModel.reachable W N s ->
+  a < NestedModel.next s -> NestedModel.done s a = true ->
+  count_occ Nat.eq_dec (NestedModel.queue s) a = 0 /\
+  Nested.bcount a (concat (NestedModel.stacks s)) = 0.
+Proof. exact Nested.nested_done_safe. Qed.
+Print Assumptions c19_nested_done_safe.
+
+(** non-vacuity: pool of ONE worker (thread 0) and one outside caller (thread 1); the caller's
+    scope 0 spawns a task, the worker runs it, the task opens nested scope 1, spawns into it,
+    finishes the nested root callback, waits, and HELPS by running the nested task on its own stack *)
+Example c19_nested_example : exists s, NestedModel.reachable 1 2 s /\
+  nth 0 (NestedModel.stacks s) [] = [NestedModel.FTask 1; NestedModel.FWait 1; NestedModel.FTask 0] /\
+  nth 1 (NestedModel.stacks s) [] = [NestedModel.FRoot 0] /\ NestedModel.queue s = [].
+Proof.
+  pose proof (NestedModel.reach_init 1 2) as R0.
+  eassert (R1 : NestedModel.reachable 1 2 _).
+  { eapply NestedModel.reach_step; [exact R0|].
+    eapply (NestedModel.NOpen 1 _ 1 []); [simpl; auto|reflexivity|reflexivity]. }
+  eassert (R2 : NestedModel.reachable 1 2 _).
+  { eapply NestedModel.reach_step; [exact R1|].
+    eapply (NestedModel.NSpawn 1 _ 1 (NestedModel.FRoot 0) [] 0); reflexivity. }
+  eassert (R3 : NestedModel.reachable 1 2 _).
+  { eapply NestedModel.reach_step; [exact R2|].
+    eapply (NestedModel.NStart 1 _ 0 0 [] []); [auto|simpl; auto|reflexivity|reflexivity]. }
+  eassert (R4 : NestedModel.reachable 1 2 _).
+  { eapply NestedModel.reach_step; [exact R3|].
+    eapply (NestedModel.NOpen 1 _ 0 [NestedModel.FTask 0]); [simpl; auto|reflexivity|reflexivity]. }
+  eassert (R5 : NestedModel.reachable 1 2 _).
+  { eapply NestedModel.reach_step; [exact R4|].
+    eapply (NestedModel.NSpawn 1 _ 0 (NestedModel.FRoot 1) [NestedModel.FTask 0] 1); reflexivity. }
+  eassert (R6 : NestedModel.reachable 1 2 _).
+  { eapply NestedModel.reach_step; [exact R5|].
+    eapply (NestedModel.NFinishRoot 1 _ 0 1 [NestedModel.FTask 0]); reflexivity. }
+  eassert (R7 : NestedModel.reachable 1 2 _).
+  { eapply NestedModel.reach_step; [exact R6|].
+    eapply (NestedModel.NHelp 1 _ 0 1 [NestedModel.FTask 0] 1 [] []); [auto|reflexivity|reflexivity]. }
+  eexists. split; [exact R7|]. repeat split.
+Qed.
